@@ -224,11 +224,14 @@ func c09(c *Ctx) {
 	for _, cf := range casters {
 		okShape := false
 		why := "the result is not rebuilt from a (type, pointer, flag) triple"
+		nRet, nGood := 0, 0
 		for _, ret := range returnsOf(cf) {
+			nRet++
 			rv := retResult(ret, 0)
 			// result = *(*reflect.Value)(unsafe.Pointer(&hack.Value{...})) : a load through a converted pointer to a local triple
 			ld, ok := rv.(*ssa.UnOp)
 			if !ok {
+				why = "some return hands back a value that is not rebuilt from a (type, pointer, flag) triple (at " + p.Pos(posOf(ret)) + ")"
 				continue
 			}
 			var lit *ssa.Alloc
@@ -284,9 +287,13 @@ func c09(c *Ctx) {
 			okTyp := vals["Typ"] != nil && !fromOrigin(vals["Typ"], "Typ") && dependsOn(vals["Typ"], func(x ssa.Value) bool { return x == ssa.Value(cf.Params[1]) })
 			if okPtr && okFlag && okTyp {
 				okShape = true
+				nGood++
 			} else {
 				why = "the rebuilt value does not take its data pointer and flag word from the original value and its type word from the target type"
 			}
+		}
+		if nGood != nRet {
+			okShape = false // every way out of the helper must preserve pointer and flag
 		}
 		r.Check(okShape, "C09.R6", "retyping helper "+shortName(cf)+" swaps only the type word", p.Pos(cf.Pos()), "Ptr and Flag copied from the original reflect.Value, Typ from the target type",
 			"the unsafe retyping helper no longer preserves the original value's data pointer and flag word ("+why+"): values stored directly in the interface word (pointer-shaped structs) are dereferenced once too often or lose addressability")
